@@ -185,3 +185,220 @@ func (d *vDst) Write(p []byte) (int, error) {
 	return len(p), nil
 }
 
+// vItem is one top-level item of a valid stream: a control frame or a data message.
+type vItem struct {
+	control bool
+	op      byte
+	payload []byte  // control payload or whole message payload
+	inter   []vItem // control frames interleaved inside a fragmented message (in order)
+}
+
+// vGenStream builds a nondeterministic VALID frame stream of k frames (+ closing frames),
+// returning the wire bytes and the reference decomposition.
+func vGenStream(server bool, k int, maxPayload int, asciiText bool) ([]byte, []vItem) {
+	wire, items, _, _ := vGenStreamX(server, k, maxPayload, asciiText, true)
+	return wire, items
+}
+
+// vGenStreamX: with complete=false the stream is left as generated (possibly with an open
+// fragmented message, returned as cur when frag is true) and no sentinel is appended.
+func vGenStreamX(server bool, k int, maxPayload int, asciiText bool, complete bool) ([]byte, []vItem, bool, vItem) {
+	var wire []byte
+	var items []vItem
+	frag := false
+	var cur vItem
+	frame := func(fin bool, op byte, n int, tag string) []byte {
+		p := vBytes(tag, n)
+		f := vFrame{fin: fin, op: op, masked: server, payload: p}
+		if server {
+			f.key = [4]byte{vU8(tag + ".k0"), vU8(tag + ".k1"), vU8(tag + ".k2"), vU8(tag + ".k3")}
+		}
+		wire = append(wire, vEncode(f)...)
+		return p
+	}
+	text := func(p []byte) {
+		if asciiText {
+			for _, c := range p {
+				vAssume(c < 0x80)
+			}
+		}
+	}
+	for i := 0; i < k; i++ {
+		n := vChoose("plen", maxPayload+1)
+		if !frag {
+			kind := vChoose("kind", 6)
+			switch kind {
+			case 0, 1, 2, 3: // text final / text non-final / binary final / binary non-final
+				fin := kind%2 == 0
+				op := byte(1 + kind/2)
+				p := frame(fin, op, n, "f")
+				if op == 1 {
+					text(p)
+				}
+				cur = vItem{op: op, payload: append([]byte{}, p...)}
+				if fin {
+					items = append(items, cur)
+				} else {
+					frag = true
+				}
+			case 4:
+				p := frame(true, 9, n, "f")
+				items = append(items, vItem{control: true, op: 9, payload: p})
+			case 5:
+				p := frame(true, 10, n, "f")
+				items = append(items, vItem{control: true, op: 10, payload: p})
+			}
+		} else {
+			kind := vChoose("kindf", 4)
+			switch kind {
+			case 0, 1: // continuation final / non-final
+				fin := kind == 0
+				p := frame(fin, 0, n, "f")
+				if cur.op == 1 {
+					text(p)
+				}
+				cur.payload = append(cur.payload, p...)
+				if fin {
+					items = append(items, cur)
+					frag = false
+				}
+			case 2:
+				p := frame(true, 9, n, "f")
+				cur.inter = append(cur.inter, vItem{control: true, op: 9, payload: p})
+			case 3:
+				p := frame(true, 10, n, "f")
+				cur.inter = append(cur.inter, vItem{control: true, op: 10, payload: p})
+			}
+		}
+	}
+	if !complete {
+		return wire, items, frag, cur
+	}
+	if frag { // close the open message with a final (possibly empty) continuation
+		n := vChoose("plen", 2)
+		p := frame(true, 0, n, "f")
+		if cur.op == 1 {
+			text(p)
+		}
+		cur.payload = append(cur.payload, p...)
+		items = append(items, cur)
+	}
+	// sentinel message
+	p := frame(true, 2, 1, "sent")
+	items = append(items, vItem{op: 2, payload: p})
+	return wire, items, false, vItem{}
+}
+
+// vCutSrc serves data[:cut] and then EOF or an error.
+type vCutSrc struct {
+	data   []byte
+	cut    int
+	pos    int
+	useErr bool
+	one    bool
+}
+
+var vErrSrc = &vErr{"harness: transport failed"}
+
+func (s *vCutSrc) Read(p []byte) (int, error) {
+	if s.pos >= s.cut {
+		if s.useErr {
+			return 0, vErrSrc
+		}
+		return 0, io.EOF
+	}
+	if len(p) == 0 {
+		return 0, nil
+	}
+	n := s.cut - s.pos
+	if n > len(p) {
+		n = len(p)
+	}
+	if s.one {
+		n = 1
+	}
+	copy(p, s.data[s.pos:s.pos+n])
+	s.pos += n
+	return n, nil
+}
+
+type vCutRW struct {
+	vCutSrc
+	out []byte
+}
+
+func (c *vCutRW) Write(p []byte) (int, error) { c.out = append(c.out, p...); return len(p), nil }
+
+// vChunkSrc returns exactly k bytes (k chosen per call) of data per Read.
+type vChunkSrc struct {
+	data    []byte
+	pos     int
+	withErr int // 0: (n, nil); 1: (n, io.EOF) together with the data; 2: (n, transient error)
+	lastErr error
+}
+
+func (s *vChunkSrc) Read(p []byte) (int, error) {
+	n := len(s.data) - s.pos
+	if n > len(p) {
+		n = len(p)
+	}
+	n = vChoose("take", n+1) // any amount 0..n
+	copy(p, s.data[s.pos:s.pos+n])
+	s.pos += n
+	// the io.Reader contract allows data and an error in the same call
+	switch s.withErr {
+	case 1:
+		s.lastErr = io.EOF
+	case 2:
+		s.lastErr = vErrSrc
+	}
+	return n, s.lastErr
+}
+
+// vPartialDst accepts only the first k bytes of a write (k chosen), reporting a short write.
+type vPartialDst struct {
+	all   []byte
+	short bool
+}
+
+func (d *vPartialDst) Write(p []byte) (int, error) {
+	n := len(p)
+	if d.short {
+		n = vChoose("accept", len(p)+1)
+	}
+	d.all = append(d.all, p[:n]...)
+	if n < len(p) {
+		return n, io.ErrShortWrite
+	}
+	return n, nil
+}
+
+// vHeaderBroken is the RFC 6455 framing-rule oracle of C03 (which rule set a header breaks
+// in a given endpoint state).
+func vHeaderBroken(fin bool, rsv, op byte, masked bool, length uint64, server, client, ext, frag bool) bool {
+	reserved := vOr(vIn(op, 3, 7), vIn(op, 0xb, 0xf))
+	control := op&8 != 0
+	r := vOr(reserved, vAnd(control, length > 125))
+	r = vOr(r, vAnd(control, !fin))
+	r = vOr(r, vAnd(rsv != 0, !ext))
+	r = vOr(r, vAnd(server, !masked))
+	r = vOr(r, vAnd(client, masked))
+	r = vOr(r, vAnd(frag, vAnd(!control, op != 0)))
+	r = vOr(r, vAnd(!frag, op == 0))
+	return r
+}
+
+// vCloseOracle: RFC 6455 §7.4 validity of a close payload (code + reason), with the open
+// region (1012-1014, >=5000) reported separately.
+func vCloseOracle(payload []byte) (valid, open bool) {
+	c := uint16(payload[0])<<8 | uint16(payload[1])
+	codeOK := vOr(vAnd(c >= 1000, c <= 1003), vOr(vAnd(c >= 1007, c <= 1011), vAnd(c >= 3000, c <= 4999)))
+	open = vOr(vAnd(c >= 1012, c <= 1014), c >= 5000)
+	return vAnd(codeOK, vUTF8Valid(payload[2:])), open
+}
+
+type vStubAddr struct{}
+
+func (vStubAddr) Network() string { return "tcp" }
+
+func (vStubAddr) String() string { return "stub" }
